@@ -10,4 +10,6 @@ CASES = [
     dict(expect="fire", desc="merge: inner errors swallowed", names="merge_", edits=[dict(file=MG,
          old="            on_error = synchronized(source.lock)(observer.on_error)\n            subscription.disposable = xs.subscribe(", new="            on_error = synchronized(source.lock)(lambda e: None)\n            subscription.disposable = xs.subscribe(")]),
     dict(expect="silent", desc="merge: comparison flipped", edits=[dict(file=MG, old="            if active_count[0] < max_concurrent:", new="            if max_concurrent > active_count[0]:")]),
+    dict(expect="fire", desc="seed C11/1: merge(max_concurrent) drops the scheduler for inners", names="F0-scheduler-forwarded", edits=[dict(file="reactivex/operators/_merge.py",
+         old="            subscription.disposable = xs.subscribe(\n                on_next, on_error, on_completed, scheduler=scheduler\n            )", new="            subscription.disposable = xs.subscribe(on_next, on_error, on_completed)")]),
 ]
